@@ -9,7 +9,7 @@ import warnings
 
 import numpy as np
 
-from harness import core
+from harness import core, gens
 
 # (r0, delta, L0, l0): includes an inner scale that is large compared with the pixel, and repeated geometry with another r0
 # ... the Kolmogorov limit (infinite outer scale) and an outer scale smaller than the screen (L0 <= N delta for every N in scope)
@@ -26,38 +26,96 @@ class ProtocolChanged(Exception):
     (the covariance is then decided by regression_covariance alone)"""
 
 
-class Scripted(np.random.Generator):
+class Scripted(gens.HarnessGenerator):
     def __init__(self, seed=0):
-        super().__init__(np.random.PCG64(seed))
-        self.queue = []
-        self.calls = []
+        super().__init__(seed, queue=[], calls=[])
+
+    queue = property(lambda self: self.sh.queue, lambda self, v: setattr(self.sh, "queue", v))
+    calls = property(lambda self: self.sh.calls, lambda self, v: setattr(self.sh, "calls", v))
 
     def normal(self, loc=0.0, scale=1.0, size=None):
-        self.calls.append(size)
-        if self.queue:
-            v = np.asarray(self.queue.pop(0), float)
+        self.sh.calls.append(size)
+        if self.sh.queue:
+            v = np.asarray(self.sh.queue.pop(0), float)
             if size is not None and tuple(np.atleast_1d(size)) != v.shape:
                 raise ProtocolChanged("scripted draw of shape %s requested as %s" % (v.shape, size))
             return loc + scale * v
         return super().normal(loc, scale, size)
 
+    def standard_normal(self, size=None, *a, **k):
+        self.sh.calls.append(("standard_normal", size))
+        if self.sh.queue:
+            raise ProtocolChanged("deviates requested through standard_normal%s while scripted draws for normal() are pending" % (size,))
+        return super().standard_normal(size, *a, **k)
 
-class Recording(np.random.Generator):
-    """a Generator that hands out ordinary deviates and remembers every one of them, in order"""
 
-    def __init__(self, seed=0):
-        super().__init__(np.random.PCG64(seed))
-        self.log = []
+class Indexed(gens.HarnessGenerator):
+    """serves the entries of ONE prescribed vector x as the deviates, in whatever order, shapes and through whichever of
+    normal / standard_normal the code asks for them: the k-th deviate the code consumes is x[k].  With x = e_k this measures
+    column k of the code's linear map draws -> screen without assuming anything about its draw protocol."""
+
+    def __init__(self, x):
+        if gens.is_bitgen(x):                     # a child stream spawned by the library: shares the parent's vector and position
+            super().__init__(x)
+        else:
+            super().__init__(0, x=np.asarray(x, float), pos=0)
+
+    pos = property(lambda self: self.sh.pos)
+
+    def _take(self, size):
+        sh = self.sh
+        shape = () if size is None else tuple(np.atleast_1d(size).astype(int))
+        n = int(np.prod(shape)) if shape else 1
+        if sh.pos + n > sh.x.size:
+            raise ProtocolChanged("more deviates requested (%d) than in the counting call (%d)" % (sh.pos + n, sh.x.size))
+        v = sh.x[sh.pos:sh.pos + n].reshape(shape) if shape else float(sh.x[sh.pos])
+        sh.pos += n
+        return v
 
     def normal(self, loc=0.0, scale=1.0, size=None):
-        v = super().standard_normal(size)
-        self.log.append(np.ravel(v).copy())
-        return loc + scale * v
+        return loc + scale * self._take(size)
 
-    def standard_normal(self, size=None, *a, **k):
-        v = super().standard_normal(size)
-        self.log.append(np.ravel(v).copy())
-        return v
+    def standard_normal(self, size=None, dtype=np.float64, out=None):
+        v = self._take(size if out is None else out.shape)
+        if out is not None:
+            out[...] = v
+            return out
+        return np.asarray(v, dtype=dtype) if np.ndim(v) else v
+
+
+def measured_map(func, N, P, rng):
+    """the code's own linear map L (pixels x deviates), column by column; None, why  when it cannot be measured this way.
+    Also decides linearity: a random deviate vector must give L x."""
+    r0, delta, L0, l0 = P
+    g = Recording(5)
+    y0 = np.asarray(func(r0, N, delta, L0, l0, seed=g), float)
+    n = int(sum(v.size for v in g.log))
+    if n == 0:
+        return None, "no deviates drawn through Generator.normal / standard_normal"
+    if y0.shape != (N, N):
+        return None, ("%s:shape" % func.__name__, dict(N=N, shape=list(y0.shape)))
+    L = np.zeros((N * N, n))
+    e = np.zeros(n)
+    for k in range(n):
+        e[k] = 1.0
+        gen = Indexed(e)
+        y = np.asarray(func(r0, N, delta, L0, l0, seed=gen), float)
+        e[k] = 0.0
+        if gen.pos != n:
+            return None, "the number of deviates varies between calls"
+        if not np.all(np.isfinite(y)):
+            return None, ("%s:non-finite-screen" % func.__name__, dict(N=N, params=P, unit_deviate=k))
+        L[:, k] = y.ravel()
+    x = rng.standard_normal(n)
+    y = np.asarray(func(r0, N, delta, L0, l0, seed=Indexed(x)), float).ravel()
+    zero = np.asarray(func(r0, N, delta, L0, l0, seed=Indexed(np.zeros(n))), float).ravel()
+    sc = max(np.abs(L).max(), 1e-300)
+    if np.abs(zero).max() > 1e-12 * sc or np.abs(L.dot(x) - y).max() > 1e-10 * sc * np.sqrt(n):
+        return None, ("%s:not-linear-in-draws" % func.__name__, dict(N=N, params=P, err=float(np.abs(L.dot(x) - y).max() / sc), at_zero=float(np.abs(zero).max() / sc)))
+    return L, None
+
+
+Recording = gens.Recording
 
 
 def regression_covariance(func, N, P, seed0):
@@ -186,70 +244,43 @@ def expected_lo(c, P, draws):
 
 
 def check_size(ps, c, rng, quick):
-    bad = []
+    bad, notes = [], []
     N = c["N"]
-    z9 = np.zeros((3, 3))
-    zN = np.zeros((N, N))
     ncmp = 0
     for P in (PARAMS if N <= 12 else PARAMS[:2] + PARAMS[-3:-2]):          # the big sizes (prime factor >= 13) with three parameter sets
         r0, delta, L0, l0 = P
-        gen = Scripted(1)
-        # ---- plain FFT screen: every unit draw
-        scale = amp_grid(c, P).max() or 1.0
-        for k1 in range(N):
-            for k2 in range(N):
-                for part in (0, 1):
-                    e = zN.copy()
-                    e[k1, k2] = 1.0
-                    a, b = (e, zN) if part == 0 else (zN, e)
-                    gen.queue = [a, b]
-                    got = np.asarray(ps.ft_phase_screen(r0, N, delta, L0, l0, seed=gen))
-                    want = expected_hi(c, P, a, b)
-                    ncmp += 1
-                    if got.shape != (N, N) or not np.allclose(got, want, rtol=0, atol=1e-11 * scale):
-                        what = "dc-not-removed" if [k1, k2] == c["dc"] else "unit-draw-pattern"
-                        return [("ft_phase_screen:%s" % what, dict(N=N, params=P, draw=[k1, k2], part="re" if part == 0 else "im",
-                                                                    err=float(np.abs(got - want).max()) if got.shape == (N, N) else None))], ncmp
-        # linear in composite draws
-        a, b = rng.standard_normal((N, N)), rng.standard_normal((N, N))
-        gen.queue = [a, b]
-        got = np.asarray(ps.ft_phase_screen(r0, N, delta, L0, l0, seed=gen))
-        want = expected_hi(c, P, a, b)
-        if not np.allclose(got, want, rtol=0, atol=1e-10 * np.abs(want).max()):
-            return [("ft_phase_screen:not-linear-in-draws", dict(N=N, params=P))], ncmp
-        if abs(got.mean()) > 1e-10 * np.abs(got).max():
-            bad.append(("ft_phase_screen:non-zero-spatial-mean", dict(N=N, params=P, mean=float(got.mean()))))
-        # ---- sub-harmonic screen: hi draws zero, every unit low-frequency draw
-        for p in range(3):
-            for i in range(3):
-                for j in range(3):
-                    for part in (0, 1):
-                        draws = [(z9, z9)] * 3
-                        e = z9.copy()
-                        e[i, j] = 1.0
-                        draws = [((e, z9) if part == 0 else (z9, e)) if pp == p else (z9, z9) for pp in range(3)]
-                        gen.queue = [zN, zN] + [m for d in draws for m in d]
-                        gen.calls = []
-                        got = np.asarray(ps.ft_sh_phase_screen(r0, N, delta, L0, l0, seed=gen))
-                        want = expected_lo(c, P, draws)
-                        ncmp += 1
-                        sc = max(np.abs(want).max(), 1e-300)
-                        if gen.queue:
-                            raise ProtocolChanged("sub-harmonic deviates not requested: calls %s" % [str(s_) for s_ in gen.calls])
-                        if got.shape != (N, N) or not np.allclose(got, want, rtol=0, atol=1e-10 * max(sc, 1e-6 * scale)):
-                            what = "centre-not-removed" if (i, j) == (1, 1) else "unit-draw-pattern"
-                            return [("ft_sh_phase_screen:%s" % what, dict(N=N, params=P, p=p + 1, element=[i, j],
-                                                                           err=float(np.abs(got - want).max()) if got.shape == (N, N) else None))], ncmp
-                        if abs(got.mean()) > 1e-12 * max(sc, 1e-300) * N * N:
-                            return [("ft_sh_phase_screen:mean-not-removed", dict(N=N, params=P, p=p + 1, element=[i, j]))], ncmp
-        # additive: total = high-frequency part + low-frequency part on disjoint draws (so it only ADDS power)
-        a, b = rng.standard_normal((N, N)), rng.standard_normal((N, N))
-        draws = [(rng.standard_normal((3, 3)), rng.standard_normal((3, 3))) for _ in range(3)]
-        gen.queue = [a, b] + [m for d in draws for m in d]
-        got = np.asarray(ps.ft_sh_phase_screen(r0, N, delta, L0, l0, seed=gen))
-        want = expected_hi(c, P, a, b) + expected_lo(c, P, draws)
-        if not np.allclose(got, want, rtol=0, atol=1e-10 * np.abs(want).max()):
-            bad.append(("ft_sh_phase_screen:not-hi-plus-lo", dict(N=N, params=P, err=float(np.abs(got - want).max()))))
+        # ---- the code's own linear map, one unit deviate at a time, WITHOUT assuming its draw protocol (Indexed); the Def clause
+        #      is about the covariance L L^T only: which deviate feeds which coefficient is the implementation's business
+        Lhi, Llo = model_maps(c, P)
+        Chi, Clo = Lhi.dot(Lhi.T), Llo.dot(Llo.T)
+        for func, want, Lmodel, name in ((ps.ft_phase_screen, Chi, Lhi, "ft_phase_screen"),
+                                         (ps.ft_sh_phase_screen, Chi + Clo, np.hstack([Lhi, Llo]), "ft_sh_phase_screen")):
+            L, why = measured_map(func, N, P, rng)
+            if L is None:
+                if isinstance(why, tuple):
+                    return [why], ncmp, notes
+                notes.append("%s N=%d: %s" % (name, N, why))
+                continue
+            ncmp += L.shape[1]
+            C = L.dot(L.T)
+            tol = 1e-9 * max(np.abs(want).max(), 1e-300)
+            if np.abs(C - want).max() > tol:
+                D = C - want
+                i, j = np.unravel_index(int(np.argmax(np.abs(D))), D.shape)
+                if name == "ft_sh_phase_screen" and np.abs(C - Chi).max() <= tol:
+                    what = "ensemble-covariance:sub-harmonic-part-missing"
+                elif np.abs(D - D.mean()).max() <= 1e-6 * np.abs(D).max():
+                    what = "dc-not-removed" if name == "ft_phase_screen" else "mean-not-removed"
+                else:
+                    what = "ensemble-covariance"
+                return [("%s:%s" % (name, what), dict(N=N, params=P, pixels=[int(i), int(j)], got=float(C[i, j]), expected=float(want[i, j]),
+                                                      deviates=int(L.shape[1])))], ncmp, notes
+            if np.abs(L.sum(0)).max() > 1e-9 * max(np.abs(L).max(), 1e-300) * N * N:
+                bad.append(("%s:non-zero-spatial-mean" % name, dict(N=N, params=P)))
+            if L.shape != Lmodel.shape or not np.allclose(L, Lmodel, rtol=0, atol=1e-10 * max(np.abs(Lmodel).max(), 1e-300)):
+                notes.append("%s N=%d: deviates feed the coefficients in another order than transcribed (covariance identical)" % (name, N))
+                if not np.allclose(L.sum(1), Lmodel.sum(1), rtol=0, atol=1e-9 * max(np.abs(Lmodel).max(), 1e-300) * np.sqrt(L.shape[1])):
+                    notes.append("SUMRULE: %s N=%d: deviates enter with other signs / mixed: the equal-deviates probe of large grids does not apply" % (name, N))
     # ---- a user-supplied inverse FFT (the FFT= parameter) must give the same screen as the default path (even N)
     if N >= 2:
         for fftobj in (np.fft.ifft2, lambda a: np.fft.ifft2(a)):
@@ -292,22 +323,26 @@ def check_size(ps, c, rng, quick):
         scr = [np.asarray(fn_(0.2, N, 0.1, 20.0, 0.01), float) for _ in range(3)]
         if any(np.array_equal(scr[i], scr[j]) for i in range(3) for j in range(i + 1, 3)):
             bad.append(("%s:unseeded-calls-repeat-the-same-draws" % fn_.__name__, dict(N=N)))
-    return bad, ncmp
+    return bad, ncmp, notes
 
 
-class ConstantGen(np.random.Generator):
+class ConstantGen(gens.HarnessGenerator):
     """every deviate it hands out is the same number: the screen is then the SUM of all columns of the linear map, whatever
     order, shapes or blocks the deviates are requested in (as long as every Fourier coefficient gets its own two deviates)"""
 
     def __init__(self, value):
-        super().__init__(np.random.PCG64(0))
-        self.value = value
-        self.handed_out = 0
+        if gens.is_bitgen(value):
+            super().__init__(value)
+        else:
+            super().__init__(0, value=value, handed_out=0)
+
+    value = property(lambda self: self.sh.value)
+    handed_out = property(lambda self: self.sh.handed_out)
 
     def normal(self, loc=0.0, scale=1.0, size=None):
         n = int(np.prod(size)) if size is not None else 1
-        self.handed_out += n
-        return loc + scale * (np.full(size, self.value) if size is not None else self.value)
+        self.sh.handed_out += n
+        return loc + scale * (np.full(size, self.sh.value) if size is not None else self.sh.value)
 
     def standard_normal(self, size=None, *a, **k):
         return self.normal(0.0, 1.0, size)
@@ -333,19 +368,29 @@ def check_constant_draws(ps, sizes):
     return bad, n
 
 
-class GatedGen(np.random.Generator):
+class GatedGen(gens.HarnessGenerator):
     """a seeded generator that waits, at its k-th request for deviates, until another thread has finished a whole screen"""
 
-    def __init__(self, seed, pause_at, gate, reached):
-        super().__init__(np.random.PCG64(seed))
-        self.k, self.pause_at, self.gate, self.reached = 0, pause_at, gate, reached
+    def __init__(self, seed, pause_at=None, gate=None, reached=None):
+        if gens.is_bitgen(seed):
+            super().__init__(seed)
+        else:
+            super().__init__(seed, k=0, pause_at=pause_at, gate=gate, reached=reached)
+
+    def _tick(self):
+        sh = self.sh
+        sh.k += 1
+        if sh.k == sh.pause_at:
+            sh.reached.set()
+            sh.gate.wait(60)
 
     def normal(self, loc=0.0, scale=1.0, size=None):
-        self.k += 1
-        if self.k == self.pause_at:
-            self.reached.set()
-            self.gate.wait(60)
+        self._tick()
         return super().normal(loc, scale, size)
+
+    def standard_normal(self, size=None, *a, **k):
+        self._tick()
+        return super().standard_normal(size, *a, **k)
 
 
 def check_two_threads(ps):
@@ -360,7 +405,8 @@ def check_two_threads(ps):
         out = {}
         ta = threading.Thread(target=lambda: out.__setitem__("a", np.asarray(fn(0.2, N, 0.1, 20.0, 0.01, seed=GatedGen(21, pause, gate, reached)), float)))
         ta.start()
-        reached.wait(60)
+        while ta.is_alive() and not reached.wait(0.02):      # a code that asks for its deviates in fewer requests never pauses: nothing to schedule
+            pass
         out["b"] = np.asarray(fn(0.2, N, 0.1, 20.0, 0.01, seed=np.random.default_rng(22)), float)
         gate.set()
         ta.join(60)
@@ -394,7 +440,11 @@ def synth_case(N):
 
 
 def check_big_sizes(ps, printed, sizes):
-    """sizes far beyond TLC's (several hundred pixels): unit draws in the first, middle and LAST rows / columns of the coefficient array"""
+    """sizes far beyond TLC's (several hundred pixels).  The full map is out of reach there, so single columns of it are measured
+    (Indexed: the k-th deviate the code consumes is 1, all others 0 - no assumption about the draw protocol) and judged by what
+    the Def says about ANY column when one deviate feeds one Fourier coefficient: it is a real plane wave, and its amplitude is
+    the spectrum's value AT THE WAVE'S OWN FREQUENCY.  Which deviate feeds which frequency is not judged; a column that is not a
+    single plane wave (deviates mixed before use) is an unrecognised protocol and only noted."""
     bad = []
     n = 0
     for c in printed:                                     # the closed form IS the model
@@ -403,33 +453,54 @@ def check_big_sizes(ps, printed, sizes):
             raise core.MachineryError("synth_case(%d) differs from FFTScreen.tla's tables" % c["N"])
     P = PARAMS[0]
     r0, delta, L0, l0 = P
+    note = None
     for N in sizes:
         c = synth_case(N)
-        s_ = amp_grid(c, P)
-        z = np.exp(2j * np.pi / N)
-        f = np.array(c["freq"])
-        gen = Scripted(1)
-        for k1 in sorted({0, 1, N // 2 - 1, 255, 256, 257, N - 65, N - 2, N - 1} & set(range(N))):
-            for k2 in (0, N // 3, N - 1):
-                for part in (0, 1):
-                    e = np.zeros((N, N))
-                    e[k1, k2] = 1.0
-                    a, b = (e, np.zeros((N, N))) if part == 0 else (np.zeros((N, N)), e)
-                    gen.queue = [a, b]
-                    try:
-                        got = np.asarray(ps.ft_phase_screen(r0, N, delta, L0, l0, seed=gen), float)
-                    except ProtocolChanged:
-                        return bad, n, "draw protocol differs"
-                    if gen.queue:
-                        return bad, n, "draw protocol differs"
-                    coef = (1.0 if part == 0 else 1j) * s_[k1, k2]
-                    want = np.real(coef * np.outer(z ** (f * f[k1] % N), z ** (f * f[k2] % N)))
-                    n += 1
-                    if got.shape != (N, N) or not np.allclose(got, want, rtol=0, atol=1e-9 * max(s_.max(), 1e-300)):
-                        bad.append(("ft_phase_screen:unit-draw-pattern:large-grid", dict(N=N, draw=[k1, k2], part="re" if part == 0 else "im",
-                                                                                        err=float(np.abs(got - want).max() / s_.max()) if got.shape == (N, N) else None)))
-                        return bad, n, None
-    return bad, n, None
+        s_ = amp_grid(c, P)                               # amplitude per centred frequency index [k1, k2]
+        g = Recording(5)
+        ps.ft_phase_screen(r0, N, delta, L0, l0, seed=g)
+        total = int(sum(v.size for v in g.log))
+        if total == 0:
+            return bad, n, "no deviates drawn through Generator.normal / standard_normal"
+        rows = sorted({0, 1, N // 2 - 1, 255, 256, 257, N - 65, N - 2, N - 1} & set(range(N)))
+        ks = sorted({(blk * N * N + k1 * N + k2) % total for blk in (0, 1) for k1 in rows for k2 in (0, N // 3, N - 1)})
+        zeros = 0
+        for k in ks:
+            e = np.zeros(total)
+            e[k] = 1.0
+            gen = Indexed(e)
+            try:
+                got = np.asarray(ps.ft_phase_screen(r0, N, delta, L0, l0, seed=gen), float)
+            except ProtocolChanged as ex:
+                return bad, n, str(ex)[:160]
+            n += 1
+            if got.shape != (N, N) or not np.all(np.isfinite(got)):
+                bad.append(("ft_phase_screen:unit-deviate-response:large-grid", dict(N=N, deviate=int(k), shape=list(got.shape))))
+                return bad, n, note
+            F = np.fft.fftshift(np.fft.fft2(got)) / (N * N)           # F[k1, k2] at centred frequency indices (k - N//2)
+            A = np.abs(F)
+            peak = A.max()
+            if peak == 0.0:
+                # the zero frequency, and the imaginary parts at the (up to four) self-conjugate frequencies, legitimately give nothing
+                zeros += 1
+                if zeros > 5:
+                    note = note or "more than five unit deviates give a zero screen"
+                continue
+            k1, k2 = np.unravel_index(int(np.argmax(A)), A.shape)
+            m1, m2 = (N - k1) % N, (N - k2) % N                      # the conjugate frequency (for even N: index N - k, 0 stays 0)
+            rest = A.copy()
+            rest[k1, k2] = 0.0
+            rest[m1, m2] = 0.0
+            if rest.max() > 1e-9 * peak:
+                note = note or "a unit deviate excites more than one frequency pair (deviates are mixed before use)"
+                continue
+            amp = 2.0 * peak if (k1, k2) != (m1, m2) else peak       # real plane wave: a cos(...) = a/2 at +f and a/2 at -f
+            want = s_[k1, k2]
+            if abs(amp - want) > 1e-9 * max(s_.max(), 1e-300):
+                bad.append(("ft_phase_screen:unit-draw-pattern:large-grid", dict(N=N, deviate=int(k), frequency_index=[int(k1 - N // 2), int(k2 - N // 2)],
+                                                                                amplitude=float(amp), spectrum_there=float(want))))
+                return bad, n, note
+    return bad, n, note
 
 
 def int_seed_mode(ps, c, P, seed=5):
@@ -513,13 +584,16 @@ def run(run):
     coupled = {}
     modes = {}
     ncov = unmeasured = 0
+    sumrule_off = []
     for c in sorted(r.printed, key=lambda d: d["N"]):
         with np.errstate(all="ignore"):
             try:
-                bad, ncmp = check_size(ps, c, rng, quick)
+                bad, ncmp, notes = check_size(ps, c, rng, quick)
             except ProtocolChanged as ex:
-                bad, ncmp = [], 0
-                run.drift("draw-protocol-differs-from-transcription", dict(N=c["N"], why=str(ex)[:200]))
+                bad, ncmp, notes = [], 0, [str(ex)[:200]]
+            sumrule_off += [nt for nt in notes if nt.startswith("SUMRULE")]
+            for nt in [nt for nt in notes if not nt.startswith("SUMRULE")][:2]:
+                run.drift("draw-protocol-differs-from-transcription", dict(N=c["N"], why=nt))
             if c["N"] <= (8 if quick else 12):
                 for P in PARAMS:
                     b2, notes = check_covariance(ps, c, P, 1000 + run.seed % 1000)
@@ -552,8 +626,10 @@ def run(run):
         for key, detail in check_two_threads(ps) + check_huge(ps):
             run.violation(key, detail, dict(kind="threads-or-huge"))
     total += 4
+    if sumrule_off:
+        run.drift("equal-deviates-probe-not-applicable", dict(why=sumrule_off[0][:200]))
     with np.errstate(all="ignore"):
-        badk, nk = check_constant_draws(ps, (4, 8, 26, 34, 96, 300, 320) if quick else (4, 8, 12, 26, 34, 58, 96, 300, 320, 384, 640))
+        badk, nk = ([], 0) if sumrule_off else check_constant_draws(ps, (4, 8, 26, 34, 96, 300, 320) if quick else (4, 8, 12, 26, 34, 58, 96, 300, 320, 384, 640))
     for key, detail in badk:
         run.violation(key, detail, dict(kind="constant"))
     total += nk
@@ -606,7 +682,7 @@ def replay(run, case):
         if c["N"] == case["N"]:
             with np.errstate(all="ignore"):
                 try:
-                    bad, _ = check_size(ps, c, rng, True)
+                    bad = check_size(ps, c, rng, True)[0]
                 except ProtocolChanged:
                     bad = []
                 if c["N"] <= 12:
